@@ -105,6 +105,10 @@ func (st *State) exec(in ssa.Instruction) []*State {
 		c := st.intOf(st.eval(x.Cap), x.Cap.Type(), "c")
 		if ip.Hooks != nil {
 			ip.Hooks.MakeSlice(st, x, n)
+			if x.Cap != x.Len {
+				// make([]T, len, cap) panics when cap < len or cap < 0: require cap - len >= 0 (len >= 0 is required above)
+				ip.Hooks.MakeSlice(st, x, c.Sub(n))
+			}
 		}
 		id := st.nm(x)
 		// element contents are not tracked as zero: callees and library calls fill buffers
